@@ -106,11 +106,27 @@ C03_Coins_Step ==
       \/ CoinBal(st', r.a, r.d) >= r.n
       \/ r.a = ModFeePool /\ EvIs("GovSendFromFeePool") /\ Gov \in Sg
 
+\* "... and it is paid for them in the order's ask denomination": under a BuyDirect a
+\* non-signer gains coins only in the ask denomination of one of its own orders that the
+\* message names (the fee pool collects the fees)
+AskDenomsOf(a) ==
+  {MarketById(st, OrderById(st, ev'.m.orders[i].id).mid).denom :
+     i \in {j \in DOMAIN ev'.m.orders :
+              /\ HasOrder(st, ev'.m.orders[j].id)
+              /\ OrderById(st, ev'.m.orders[j].id).seller = a
+              /\ HasMarketId(st, OrderById(st, ev'.m.orders[j].id).mid)}}
+
+C03_PaidInAskDenom_Step ==
+  EvIs("BuyDirect") =>
+    \A r \in st'.coins :
+      (r.a \notin Sg /\ r.a # ModFeePool /\ r.n > CoinBal(st, r.a, r.d)) => r.d \in AskDenomsOf(r.a)
+
 C03_Block_Step == IsBlockEv(ev') => st'.coins = st.coins /\ st'.csupply = st.csupply
 
 C03_Credits_Prop == [][C03_Credits_Step]_vars
 C03_Coins_Prop   == [][C03_Coins_Step]_vars
 C03_Block_Prop   == [][C03_Block_Step]_vars
+C03_PaidInAskDenom_Prop == [][C03_PaidInAskDenom_Step]_vars
 
 \* ================================================================== C05
 C05_Backed ==
@@ -567,14 +583,14 @@ C13_ReceiveIntoBound_Step ==
                IN /\ ev'.resp.batch_denom = b.denom
                   /\ IssuedOf(gh', b.denom) = IssuedOf(gh, b.denom) + m.amt
                   /\ TotalSup(st', b.key) = TotalSup(st, b.key) + m.amt
-                  /\ BalOf(st', m.to, b.key).t = BalOf(st, m.to, b.key).t + m.amt
+                  /\ BalOf(st', Acct(m.to), b.key).t = BalOf(st, Acct(m.to), b.key).t + m.amt
                   /\ st'.batches = st.batches
           ELSE /\ ~HasBatchDenom(st, ev'.resp.batch_denom)
                /\ HasBatchDenom(st', ev'.resp.batch_denom)
                /\ LET b == BatchByDenom(st', ev'.resp.batch_denom) IN
                   /\ \E x \in st'.contracts : x.bk = b.key /\ x.ck = c.key /\ x.contract = m.origin.contract
                   /\ TotalSup(st', b.key) = m.amt
-                  /\ BalOf(st', m.to, b.key).t = m.amt
+                  /\ BalOf(st', Acct(m.to), b.key).t = m.amt
 
 C13_BridgeOut_Step ==
   EvIs("Bridge") =>
